@@ -86,6 +86,10 @@ class Model(HoloPyObject):
                         par, parameters_to_tie[0])
                 raise ValueError(msg)
             indices.append(self._parameter_names.index(par))
+        if (new_name in self._parameter_names
+                and new_name not in parameters_to_tie):
+            msg = "Cannot name the tied parameter {}: another parameter has that name".format(new_name)
+            raise ValueError(msg)
         indices.sort()
         for index in indices[:0:-1]:
             del(self._parameters[index])
